@@ -175,18 +175,21 @@ func (d *Decimal) setString(c *Context, s string) (Condition, error) {
 		return 0, nil
 	}
 
-	exps := make([]int64, 0, 2)
+	// The exponent of the value is the written exponent less the number of
+	// fraction digits. Only their sum is subject to the exponent limits: a
+	// long fraction can be compensated by the written exponent or by the
+	// digits before the point.
+	var exp int64
 	if i := strings.IndexByte(s, 'e'); i >= 0 {
-		exp, err := strconv.ParseInt(s[i+1:], 10, 32)
+		e, err := strconv.ParseInt(s[i+1:], 10, 32)
 		if err != nil {
 			return 0, fmt.Errorf("parse exponent: %s: %w", s[i+1:], err)
 		}
-		exps = append(exps, exp)
+		exp = e
 		s = s[:i]
 	}
 	if i := strings.IndexByte(s, '.'); i >= 0 {
-		exp := int64(len(s) - i - 1)
-		exps = append(exps, -exp)
+		exp -= int64(len(s) - i - 1)
 		s = s[:i] + s[i+1:]
 	}
 	// The mantissa must consist of digits only; BigInt.SetString would also
@@ -199,7 +202,7 @@ func (d *Decimal) setString(c *Context, s string) (Condition, error) {
 	}
 	// No parse errors, can now flag as finite.
 	d.Form = Finite
-	return c.goError(d.setExponent(c, unknownNumDigits, 0, exps...))
+	return c.goError(d.setExponent(c, unknownNumDigits, 0, exp))
 }
 
 // NewFromString creates a new decimal from s. It has no restrictions on
